@@ -38,7 +38,7 @@ structure CodecFacts where
   ipReaderCopies : Bool
   boolTrue : Nat
   boolFalse : Nat
-deriving DecidableEq, Repr
+deriving DecidableEq, Repr, Inhabited
 
 /-- the facts the theorems need -/
 def CodecFacts.good (F : CodecFacts) : Bool :=
@@ -57,7 +57,7 @@ inductive Kind where
   | u8 | u16 | u32 | bool | ipv4 | addrPort | mac              -- built-in switch arms
   | serial | date | datePtr | dateTime | dateTimePtr | sysDate | sysTime
   | hhmm | hhmmPtr | pin | version | macAddress                 -- Marshaler / Unmarshaler arms
-deriving DecidableEq, Repr
+deriving DecidableEq, Repr, Inhabited
 
 /-- number of bytes a field of this kind occupies on the wire (for in-domain values) -/
 def Kind.width : Kind → Nat
@@ -334,12 +334,12 @@ inductive Leaf where
   | msgType (value : Option String)                     -- field of type types.MsgType
   | at (off : Nat) (k : Kind) (value : Option String)   -- `uhppote:"offset:N[, value:V]"`
   | skip                                                -- no offset tag: ignored in both directions
-deriving DecidableEq, Repr
+deriving DecidableEq, Repr, Inhabited
 
 inductive Field where
   | leaf (name : String) (l : Leaf)
   | embed (name : String) (ls : List (String × Leaf))   -- anonymous struct field (one level)
-deriving DecidableEq, Repr
+deriving DecidableEq, Repr, Inhabited
 
 abbrev Layout := List Field
 
